@@ -195,7 +195,7 @@ class Watchdog(Exception):
 
 def run_script(world: Any, script: List[Tuple[Any, ...]], deadline_s: float = 30.0) -> Dict[str, Any]:
     """Executes a client script.  Verbs: ('send', bytes) ('send-slow', bytes, piece) ('responses', n, methods)
-    ('bytes', n) ('until', marker) ('eof',) ('close',) ('shutdown-wr',) ('reset',) ('advance', k)."""
+    ('bytes', n) ('until', marker) ('eof',) ('close',) ('shutdown-wr',) ('reset',) ('advance', k) ('origin-sees', conv_id)."""
     from . import h11util
     c = world.new_client()
     end = time.time() + deadline_s
@@ -250,6 +250,9 @@ def run_script(world: Any, script: List[Tuple[Any, ...]], deadline_s: float = 30
             elif k == 'advance':
                 for _ in range(op[1]):
                     world.advance()
+            elif k == 'origin-sees':
+                # causal ordering: continue only once the origin has read something of this conversation
+                wait(lambda: bool(world.origin.transcripts_for(op[1])))
         # let closes propagate
         for _ in range(40):
             world.advance()
